@@ -317,7 +317,8 @@ func (p *parser) parsePrecList(Tklist *[]TokenDef) []PrecDef {
 				IdName = genTempName(IdName)
 				idvalue = charCode(p.current.Value)
 			}
-			if !p.TokenDefMap[IdName] {
+			// a value tag on the line also goes to a token declared before
+			if !p.TokenDefMap[IdName] || Tag != "" {
 				id := Idendity{
 					Tag: Tag,
 					// noname need do for sepical.
